@@ -17,6 +17,21 @@ import (
 // to three datagrams the boundary draws {0, chance-1, chance, 99}.
 
 func c16menu(chance, stream int) []int64 {
+	if stream >= 100 {
+		// long run: one fixed draw per datagram - 600 consecutive drops (draw chance-1) or,
+		// for an odd stream length, 601 consecutive forwards (draw chance), clamped to [0,99]
+		v := int64(chance) - 1
+		if stream%2 == 1 {
+			v = int64(chance)
+		}
+		if v < 0 {
+			v = 0
+		}
+		if v > 99 {
+			v = 99
+		}
+		return []int64{v}
+	}
 	if stream == 1 {
 		m := make([]int64, 100)
 		for i := range m {
@@ -260,11 +275,15 @@ func init() {
 					out = append(out, c16scenario(c, 2, true), c16scenario(c, 3, true))
 				}
 			}
+			// long runs: state that accumulates over hundreds of consecutive drops / forwards (round 15)
+			for _, c := range []int{0, 1, 50, 99, 100, 150} {
+				out = append(out, c16scenario(c, 600), c16scenario(c, 601))
+			}
 			for _, pr := range [][2]int{{50, 50}, {0, 100}, {100, 0}, {30, 70}, {99, 1}, {100, 100}, {200, 200}, {150, 150}, {300, 120}, {-5, 50}, {0, 0}} {
 				out = append(out, c16stacked(pr[0], pr[1]))
 			}
 			return out
 		},
-		Rule:        "for every chance in {-5..105 and out-of-range values: -1000, 1000, 2^31, 2^32, 2^32+50, 2^40, 306, 65586, -2^32+50, MaxInt, MinInt}: one datagram x all 100 values of the Intn(100) draw, and streams of 2 and 3 datagrams x the boundary draws {0,chance-1,chance,99}; oracle: exactly one draw from [0,100) per datagram, forwarded iff draw >= chance (hence exactly clamp(chance,0,100) of the 100 equally likely draws drop), survivors byte-identical, in order, once; per scenario the SET of explored draw sequences must be the full product of the menus (draws of successive datagrams independent), also when other loss filters are constructed between the datagrams (the global generator is modelled as a deterministic function of seed and position); two filters stacked (11 chance pairs incl. out-of-range ones): all 100 values of every draw, executions weighted 100^-draws, the forwarded weight must equal (1-p1)(1-p2) within one percentage point",
+		Rule:        "for every chance in {-5..105 and out-of-range values: -1000, 1000, 2^31, 2^32, 2^32+50, 2^40, 306, 65586, -2^32+50, MaxInt, MinInt}: one datagram x all 100 values of the Intn(100) draw, and streams of 2 and 3 datagrams x the boundary draws {0,chance-1,chance,99}; for chance in {0,1,50,99,100,150} also runs of 600 datagrams all drawn chance-1 (consecutive drops) and 601 all drawn chance (consecutive forwards); oracle: exactly one draw from [0,100) per datagram, forwarded iff draw >= chance (hence exactly clamp(chance,0,100) of the 100 equally likely draws drop), survivors byte-identical, in order, once; per scenario the SET of explored draw sequences must be the full product of the menus (draws of successive datagrams independent), also when other loss filters are constructed between the datagrams (the global generator is modelled as a deterministic function of seed and position); two filters stacked (11 chance pairs incl. out-of-range ones): all 100 values of every draw, executions weighted 100^-draws, the forwarded weight must equal (1-p1)(1-p2) within one percentage point",
 		Assumptions: []string{"math/rand.Intn is uniform; the statistical clause of the property is replaced by exact enumeration of the draw space"}})
 }
